@@ -408,6 +408,45 @@ def check(ck):
             elif n.kind == "stmt" and isinstance(n.ast, ast.Assign) and any(dump(t) == "self.__nb_pending_task" for t in n.ast.targets):
                 ck.bad("C10.7b", "%s: `%s`" % (q.fn(fi), q.stmt_text(n)), "the pending-task counter is overwritten instead of counted "
                        "(+1 per queued task, -1 per executed task)", q.loc(fi, n))
+    # counters start at zero and move by exactly one: a worker / an executing task / a waiting task is one unit. (The thread and
+    # active counters feed the bound `threads < max` and the idle count `threads - active`; a waiting task that is not counted, or
+    # a decrement larger than the increment, makes the growth test `pending > threads` miss a waiting task.)
+    finit_ = prog.func(TP, "ThreadPool.__init__")
+    for ctr, policy in (("__nb_threads", "zero"), ("__nb_active_threads", "non-negative"), ("__nb_pending_task", "non-negative")):
+        inits = [st for st in ast.walk(finit_.node) if isinstance(st, ast.Assign) and any(dump(t) == "self." + ctr for t in st.targets)]
+        if len(inits) != 1:
+            raise AnalysisError("anchor vanished: initialisation of self.%s in ThreadPool.__init__ (found %d)" % (ctr, len(inits)))
+        v0 = inits[0].value
+        try:
+            c0 = prog.const(TP, v0)
+        except AnalysisError:
+            c0 = None
+        okk = isinstance(c0, int) and not isinstance(c0, bool) and (c0 == 0 if policy == "zero" else c0 >= 0)
+        ck.require(okk, "C10.7b", "%s: self.%s starts at %s" % (q.fn(finit_), ctr, dump(v0)), "initial value 0",
+                   "the counter %s is initialised to %s: before any worker exists the pool already believes in %s - the bound `threads < "
+                   "max_threads` / the idle count / the growth test are off by that amount for the whole life of the pool"
+                   % (ctr, dump(v0), "workers or tasks that do not exist" if not (isinstance(c0, int) and c0 < 0) else "a negative number of them"),
+                   q.loc(finit_, inits[0]))
+    for fi in ci.methods.values():
+        if fi.name == "__init__":
+            continue
+        for st in ast.walk(fi.node):
+            if isinstance(st, ast.AugAssign) and isinstance(st.target, ast.Attribute) and dump(st.target.value) == "self" and \
+                    st.target.attr in ("__nb_threads", "__nb_active_threads", "__nb_pending_task"):
+                try:
+                    amount = prog.const(TP, st.value)
+                except AnalysisError:
+                    amount = None
+                ctr = st.target.attr
+                exact = amount == 1 and not isinstance(amount, bool)
+                # over-counting waiting tasks only makes the pool grow earlier: tolerated; everything else must be one unit
+                tolerated = ctr == "__nb_pending_task" and isinstance(st.op, ast.Add) and isinstance(amount, int) and amount >= 1
+                ck.require((exact or tolerated) and isinstance(st.op, (ast.Add, ast.Sub)), "C10.7b", "%s: `%s` moves the counter by one" % (q.fn(fi), dump(st)),
+                           "one unit per worker / task",
+                           "`%s` does not move %s by exactly one: the count of %s drifts with every event (the bound on the number of workers, the "
+                           "idle count of the retirement test or the growth test is evaluated on a wrong number)"
+                           % (dump(st), ctr, {"__nb_threads": "live workers", "__nb_active_threads": "executing tasks", "__nb_pending_task": "waiting tasks"}[ctr]),
+                           q.loc(fi, st))
     # every queued task is counted: in enqueue, the increment post-dominates the put on normal paths
     fenq = prog.func(TP, "ThreadPool.enqueue")
     genq = cfg_of(fenq)
